@@ -53,11 +53,8 @@ func (w *Writer) merge(a, b []*nodeInfo) []*nodeInfo {
 
 	nextDepth := b[0].depth
 	for len(a) > 1 && a[len(a)-1].depth < nextDepth && w.err == nil {
-		start := max(len(a)-maxDegree, 0)
-		for start > 0 && a[start-1].depth == a[start].depth {
-			start++
-		}
-		a = w.mergeNodes(a, start, len(a))
+		start, end := tailGroup(a)
+		a = w.mergeNodes(a, start, end)
 	}
 	if len(a) == 1 && a[0].depth < nextDepth {
 		a[0].depth = nextDepth
@@ -101,6 +98,28 @@ func (w *Writer) merge(a, b []*nodeInfo) []*nodeInfo {
 	}
 
 	return a
+}
+
+// tailGroup selects the nodes to merge next when a list is collapsed from
+// its end: the last nodes, at most maxDegree of them, starting at a change
+// of depth.  If a run of maxDegree or more nodes of one depth stands in
+// front of the last node (so that fewer than two nodes would be left), the
+// first maxDegree nodes of that run are selected instead.
+func tailGroup(nodes []*nodeInfo) (start, end int) {
+	end = len(nodes)
+	start = max(end-maxDegree, 0)
+	for start > 0 && start < end && nodes[start-1].depth == nodes[start].depth {
+		start++
+	}
+	if end-start >= 2 {
+		return start, end
+	}
+	runEnd := min(start, end)
+	runStart := runEnd - 1
+	for runStart > 0 && nodes[runStart-1].depth == nodes[runEnd-1].depth {
+		runStart--
+	}
+	return runStart, min(runStart+maxDegree, runEnd)
 }
 
 // mergeNodes collapses nodes a, ..., b-1 into a new internal node.
